@@ -119,7 +119,11 @@ async fn handle(mut req: Request, specs: Rc<Vec<St>>, rec: Rc<RefCell<Vec<HRec>>
     let policy = st.upload.as_ref().map(|u| u.read).unwrap_or(Read::All);
     if policy != Read::Nothing {
         loop {
-            match payload.next().await {
+            let item = payload.next().await;
+            if std::env::var("H2X_ECHO").is_ok() {
+                eprintln!("    handler s{idx}: payload item {:?}", item.as_ref().map(|r| r.as_ref().map(|b| b.len()).map_err(|e| e.to_string())));
+            }
+            match item {
                 Some(Ok(b)) => rec.borrow_mut()[idx].read.extend_from_slice(&b),
                 Some(Err(e)) => {
                     rec.borrow_mut()[idx].end = Some(Err(format!("{e}")));
@@ -199,6 +203,32 @@ struct Rt {
     obs: Obs,
 }
 
+pub static SERVER_POLLS: std::sync::atomic::AtomicU64 = std::sync::atomic::AtomicU64::new(0);
+pub static CLIENT_POLLS: std::sync::atomic::AtomicU64 = std::sync::atomic::AtomicU64::new(0);
+pub static HANDLER_POLLS: std::sync::atomic::AtomicU64 = std::sync::atomic::AtomicU64::new(0);
+
+struct Counted<F>(F, &'static std::sync::atomic::AtomicU64);
+impl<F: Future + Unpin> Future for Counted<F> {
+    type Output = F::Output;
+    fn poll(mut self: Pin<&mut Self>, cx: &mut Context<'_>) -> Poll<F::Output> {
+        self.1.fetch_add(1, std::sync::atomic::Ordering::Relaxed);
+        Pin::new(&mut self.0).poll(cx)
+    }
+}
+
+struct Log {
+    lines: Vec<String>,
+    echo: bool,
+}
+impl Log {
+    fn push(&mut self, l: String) {
+        if self.echo {
+            eprintln!("  {l}");
+        }
+        self.lines.push(l);
+    }
+}
+
 pub struct Exec {
     pub obs: Vec<Obs>,
     pub log: Vec<String>,
@@ -229,7 +259,7 @@ pub fn execute(scn: &Scn, ch: &mut Chooser) -> Exec {
 }
 
 async fn drive(scn: &Scn, ch: &mut Chooser) -> Exec {
-    let mut log: Vec<String> = vec![];
+    let mut log = Log { lines: vec![], echo: std::env::var("H2X_ECHO").is_ok() };
     let n = scn.streams.len();
     let specs = Rc::new(scn.streams.clone());
     let rec = Rc::new(RefCell::new(vec![HRec::default(); n]));
@@ -247,13 +277,13 @@ async fn drive(scn: &Scn, ch: &mut Chooser) -> Exec {
         b = b.h2_initial_connection_window_size(w);
     }
     let (s2, r2) = (specs.clone(), rec.clone());
-    let factory = b.h2(fn_service(move |req: Request| handle(req, s2.clone(), r2.clone())));
+    let factory = b.h2(fn_service(move |req: Request| Counted(Box::pin(handle(req, s2.clone(), r2.clone())), &HANDLER_POLLS)));
     let svc = factory.new_service(()).await.expect("new_service");
     let conn = svc.call((server_io, None));
     let server_done = Rc::new(RefCell::new(None::<String>));
     let sd = server_done.clone();
     tokio::task::spawn_local(async move {
-        let r = conn.await;
+        let r = Counted(Box::pin(conn), &SERVER_POLLS).await;
         *sd.borrow_mut() = Some(match r {
             Ok(()) => "ok".to_string(),
             Err(e) => format!("err:{e}"),
@@ -270,7 +300,7 @@ async fn drive(scn: &Scn, ch: &mut Chooser) -> Exec {
     let client_done = Rc::new(RefCell::new(None::<String>));
     let cd = client_done.clone();
     tokio::task::spawn_local(async move {
-        let r = connection.await;
+        let r = Counted(Box::pin(connection), &CLIENT_POLLS).await;
         *cd.borrow_mut() = Some(match r {
             Ok(()) => "ok".to_string(),
             Err(e) => format!("err:{}", canon_err(&e)),
@@ -372,13 +402,15 @@ async fn drive(scn: &Scn, ch: &mut Chooser) -> Exec {
             } else {
                 vec![]
             };
-            if quiescent && fire.is_empty() && !pending_start {
+            // quiescent: the last settle brought nothing new and no request was sent just now
+            let idle = quiescent && !pending_start && !started_now;
+            if idle && fire.is_empty() {
                 break;
             }
-            let base = if quiescent && !pending_start { 0 } else { 1 };
+            let base = if idle { 0 } else { 1 };
             let nopt = base + fire.len() + live.len();
             let pick = if phase == 1 {
-                ch.choose(if quiescent { "env-quiescent" } else { "env" }, nopt as u32) as usize
+                ch.choose(if idle { "env-quiescent" } else { "env" }, nopt as u32) as usize
             } else {
                 0
             };
@@ -590,5 +622,5 @@ async fn drive(scn: &Scn, ch: &mut Chooser) -> Exec {
         server_done.borrow(),
         client_done.borrow()
     ));
-    Exec { obs: out, log, steps, horizon, task_panic: None }
+    Exec { obs: out, log: log.lines, steps, horizon, task_panic: None }
 }
